@@ -37,8 +37,8 @@ type Layout struct {
 	Depth      int    `json:"depth"`       // intermediate levels under the root (0..3)
 	Revisions  int    `json:"revisions"`   // extra incremental revisions (0..3)
 	Shuffle    bool   `json:"shuffle"`
-	Filters    int    `json:"filters"`   // 0 none, 1 single, 2 chains up to 3, 3 with predictors
-	BigPad     int    `json:"big_pad"`   // bytes of padding comment-free whitespace in content streams
+	Filters    int    `json:"filters"` // 0 none, 1 single, 2 chains up to 3, 3 with predictors
+	BigPad     int    `json:"big_pad"` // bytes of padding comment-free whitespace in content streams
 	ParmsShape int    `json:"parms_shape"`
 	Seed       uint64 `json:"seed"`
 	// ObjHook, when set, may rewrite every object just before it is written (fault injection):
@@ -75,6 +75,11 @@ type RawXref struct {
 	Prev    int64
 	W       [3]int
 	Size    int
+	// LengthOverride, when non-empty, replaces the /Length value text of a
+	// cross-reference stream; DictRewrite, when set, rewrites the dictionary text of a
+	// cross-reference stream (without brackets and without /Length) before it is written.
+	LengthOverride string
+	DictRewrite    func(dict string) string
 }
 
 // PNode is the authored page tree (for the model op and the oracle).
@@ -107,8 +112,8 @@ type pobj struct {
 	stale  []byte // stale stream data / nil
 	// staleBody, when set, is what a plain object says in revisions older than its final one
 	staleBody func(num func(int) int) string
-	final  int
-	nopack bool
+	final     int
+	nopack    bool
 }
 
 func pdfString(s []byte) string {
@@ -668,7 +673,9 @@ func RenderPDF(doc LDoc, lay Layout) Rendered {
 			if lay.Filters >= 3 {
 				pred = hx.Pick(r, []int{0, 12, 10, 11, 13, 14, 15})
 			}
+			p.LengthOverride, p.XrefDictHook = rx.LengthOverride, rx.DictRewrite
 			prev = p.XrefStream(xn, entries, trailer, rx.Prev, rx.W, lay.Filters > 0, pred, rx.Size)
+			p.LengthOverride, p.XrefDictHook = "", nil
 		} else {
 			prev = p.XrefTable(entries, trailer+fmt.Sprintf(" /Size %d", rx.Size), rx.Prev, hx.Pick(r, []string{" \n", "\r\n", " \r"}))
 		}
